@@ -28,6 +28,10 @@ func expiryBatch(c *sup.Ctx) {
 		if spec.Intro == "SetWithMeta" {
 			spec.Relative = false
 		}
+		if (spec.Order == "later-first" || spec.Order == "later-after") && (i/len(rt.Orders))%4 != 0 {
+			// the other, later deadline comes in through a varying entry point (a far Touch must not disarm the timer either)
+			spec.OtherIntro = rt.Introducers[(i/3+i/len(rt.Introducers))%len(rt.Introducers)]
+		}
 		wg.Add(1)
 		go func(j int, spec rt.Spec) {
 			defer wg.Done()
@@ -44,6 +48,9 @@ func expiryBatch(c *sup.Ctx) {
 		c.Count("expiry_scenarios", 1)
 		c.Count("polling_reads", int64(res.Reads))
 		c.Cell(fmt.Sprintf("expiry|%s|%s|%s", res.Spec.Intro, res.Spec.Order, ifStr(res.Spec.Relative, "relative", "absolute")))
+		if res.Spec.OtherIntro != "" {
+			c.Cell(fmt.Sprintf("expiry-pair|%s|%s|%s", res.Spec.Order, res.Spec.OtherIntro, ifStr(res.Spec.Relative, "relative", "absolute")))
+		}
 		if res.Incon != "" {
 			c.Count("expiry_scenarios_inconclusive", 1)
 			continue
